@@ -333,7 +333,8 @@ def lineNoAt (bytes : List Nat) (off : Nat) : Nat := lineNoOf (sourceText bytes)
 
 /-- offset in `tokenizerText bytes` of the byte that came from file offset `off` (the text length if there is none) -/
 def finalPos (bytes : List Nat) (off : Nat) : Nat :=
-  (convertUCN (sourceText bytes)).findIdx (fun e => e.2 == posMap bytes off)
+  let p := posMap bytes off        -- (evaluated once, not once per element)
+  (convertUCN (sourceText bytes)).findIdx (fun e => e.2 == p)
 
 /-- line number chibicc's tokenizer (`add_line_numbers`) gives the token whose first byte is at offset `off` of the file -/
 def lineNoFinal (bytes : List Nat) (off : Nat) : Nat := lineNoOf (tokenizerText bytes) (finalPos bytes off)
